@@ -60,6 +60,15 @@ func runC04(p *Program, e *Engine, r *Result, tier string) {
 	c04AddAsksKernel(a, "C04.8")
 	c04WatchList(a, tf)
 	c07Deref(a, "C04.3n")
+	// (9) "a file is watched ... until its watched path is deleted or renamed": kernel-says-gone records remove both
+	// entries, and a record with IN_MOVE_SELF for a known non-recursive watch ends the watch through the removal
+	// function Remove uses - unconditionally (not only when the name is free again). Shared with C09.1 / C09.2.
+	if df := decodeFacts(a); df != nil {
+		if w, hv0, hctx, entry, watchLit, maskSubj := handlerFrame(a, df, tf); hctx != nil {
+			c09Cleanup(a, tf, hctx, entry, *watchLit, watchLit.A.Subj, maskSubj, collectTableOps(a, tf, w), "C04.9")
+			c09MoveSelf(a, df, tf, hv0, hctx, entry, *watchLit, watchLit.A.Subj, maskSubj, "C04.9")
+		}
+	}
 }
 
 // addWatchCalls: visits of unix.InotifyAddWatch under root.
